@@ -56,6 +56,9 @@ impl Out {
         let ev = json!({"ev": "Derived", "id": id, "docs_feature": cfg!(feature = "docs"), "obs": obs, "ftids": ftids, "ptids": ptids, "modpath": mp,
                         "phantom": t::<core::marker::PhantomData<()>>()});
         self.put(&ev);
+        let mut fe = crate::extract::faithful_event(&[meta_type::<T>()]);
+        fe["id"] = json!(id);
+        self.put(&fe);
     }
     /// the portable registry containing T (what a third-party decoder gets) and values of T
     pub fn values<T: TypeInfo + Val + Encode + 'static>(&mut self, id: usize) {
